@@ -37,12 +37,13 @@ def run(tier):
     body = [HEAD]
     conds = []
     ntypes = len(A.TYPES)
-    types0 = range(ntypes) if tier != 'quick' else [0, 3, 4, 5, 6, 7]
+    types0 = range(ntypes) if tier != 'quick' else [0, 4, 5, 6]
     for a in types0:
         for f in range(len(A.FORMS)):
             fn = 'st__%d__%d' % (a, f)
             body.append('def %s(t1: int, f1: int, has_post: bool, sizer_pos: int, sizer_t: int, dup_name: bool) -> bool:\n    """\n'
-                        '    pre: 0 <= t1 < %d and 0 <= f1 < %d and 0 <= sizer_pos <= 2 and 0 <= sizer_t < %d\n    post: _\n    """\n'
+                        '    pre: 0 <= t1 < %d and 0 <= f1 < %d and 0 <= sizer_pos <= 2 and 0 <= sizer_t < %d\n'
+                        '    pre: (not dup_name) or (has_post and sizer_pos == 0 and sizer_t == 0)\n    post: _\n    """\n'
                         '    return A.struct_coherent(%d, %d, t1, f1, has_post, sizer_pos, sizer_t, dup_name)\n\n'
                         % (fn, ntypes, len(A.FORMS), len(A.SIZER_T), a, f))
             conds.append(Cond(path, fn, 'struct/%s:%s+any' % (A.TYPES[a], A.FORMS[f]),
